@@ -382,10 +382,13 @@ func specEncLen(s structEncoder, n int) int {
 // Package reflect is an opaque dependency here (arbitrary results, its own panics not modelled); recursive
 // calls go through this contract. Checked for every byte string: no index or slice expression of
 // ParseField leaves `bytes`, no offset computation wraps around. INTEGER and ENUMERATED contents are taken
-// as two's complement (C05: the value handed to reflect is the signed value of the content octets).
+// as two's complement (C05: the value handed to reflect is the signed value of the content octets). No value
+// is built from an element whose announced header + content does not fit the input (C16: truncated and
+// over-long-length input is an error).
 //@ func ParseField [C16]
 //@   reflect-validity
 //@   requires v.IsValid()
+//@   assert "switch fieldType": [C16] int64(talOff)+tal.len <= int64(len(bytes))
 //@   assert "v.Set(reflect.ValueOf(Enumerated(val)))": [C05] 0 < len(bytes)-talOff && len(bytes)-talOff <= 8 ==> val == specSigned(specBE(bytes[talOff:], len(bytes)-talOff), len(bytes)-talOff, bytes[talOff])
 //@   assert "val.SetInt(parsedInt)": [C05] 0 < len(bytes)-talOff && len(bytes)-talOff <= 8 ==> parsedInt == specSigned(specBE(bytes[talOff:], len(bytes)-talOff), len(bytes)-talOff, bytes[talOff])
 //@   linear valArray, structParams
